@@ -283,7 +283,7 @@ def run(ctx):
     from mc.pool import pmap
 
     maxlen = 4 if ctx.thorough else 3
-    names = SHELL_KINDS if ctx.thorough else SHELL_KINDS[:6] + ["sp", "sss", "ddp", "s5", "ps", "ss0"]
+    names = SHELL_KINDS if ctx.thorough else SHELL_KINDS[:6] + ["sp", "sss", "ddp", "s5", "ps", "ss0", "sp3"]
     seqs = [s for n in range(1, maxlen + 1) for s in itertools.product(names, repeat=n)]
     jobs = [(s, k) for s in seqs for k in (False, True)]
     pmap(ctx, basis_worker, jobs, chunk=32)
